@@ -1,2 +1,9 @@
 #!/bin/sh
-exit 0
+# Builds the verification framework from files on disk only (offline): Rust harness (path deps on /repo) and the Lean development.
+set -e
+cd "$(dirname "$0")"
+export CARGO_NET_OFFLINE=true
+(cd harness && cargo build 2>&1 | tail -3)
+./harness/target/debug/nvh translate --lean "$(pwd)/lean"
+(cd lean && lake build 2>&1 | tail -3)
+echo "setup done"
